@@ -289,6 +289,10 @@ FinalTimeout ==
   /\ timer' = "none"
   /\ UNCHANGED <<cfg, closed, ctx, csend, txn, q, rch, hr, o, hist>>
 
+\* the environment's share of the sender's steps, by the names DESIGN 4.6 uses
+WriteFails == Write(FALSE)                                                \* the socket write of this send fails
+BudgetDenied == SendAttempt /\ ~(closed /\ Variant # "noclosedck") /\ s'.pc \in {"done", "budget"}  \* the limiter refuses / blocks
+
 -----------------------------------------------------------------------------
 Decs == IF Gen THEN {"short", "long"} ELSE {"short"}
 
